@@ -1,9 +1,13 @@
 #!/bin/sh
-# usage: tools/seedtest.sh <patch.diff> <prop> [<prop>...]   — applies the patch to /repo, runs the checks, reverts
+# usage: tools/seedtest.sh <patch.diff> <prop> [<prop>...]   — applies the patch to /repo, runs the checks (in parallel), reverts
 P="$1"; shift
 cd /repo && git apply "$P" || { echo "patch does not apply"; exit 3; }
 cd /verif
 for prop in "$@"; do
-  ./check $prop 2>&1 | grep -v conda | grep -E "^VIOLATION|^KNOWN|^UNDECIDED|^SUMMARY" | cut -c1-330
+  ( ./check $prop > /tmp/seedtest_$prop.out 2>&1; echo "exit=$?" >> /tmp/seedtest_$prop.out ) &
+done
+wait
+for prop in "$@"; do
+  grep -v conda /tmp/seedtest_$prop.out | grep -E "^VIOLATION|^KNOWN|^UNDECIDED|^SUMMARY|^exit=" | cut -c1-330; rm -f /tmp/seedtest_$prop.out
 done
 git -C /repo checkout -- . ; git -C /repo status --short | head -3
